@@ -1,6 +1,7 @@
 """C17 - Encrypted assertions stay confidential and are validated like plain ones."""
 import ast
 
+from ..match import facts, Q
 from ..srcmodel import attr_chain, call_name, unparse, norm_text, walk_no_nested
 from ..cfg import cfg_of, raised_class
 from ..dataflow import Origins
@@ -339,7 +340,7 @@ def r5_parity(run):
                  if "data.in_response_to" in unparse(t.ast)]
     unconditional = False
     for t in cmp_nodes:
-        gs = {(unparse(e), p) for e, p, _ in cfg.guards(t.id)}
+        gs = facts(cfg, t.id)
         if not any("came_from" in g for g, p in gs):
             unconditional = True
     key = "response.AuthnResponse::decrypted-SCD-InResponseTo::parity"
@@ -372,11 +373,11 @@ def r6_undecryptable(run):
             v = unparse(r.ast.value)
             if v == "enctext":
                 continue
-            gs = {(unparse(e), p) for e, p, _ in cfg.guards(r.id)}
+            gs = facts(cfg, r.id)
             run.check(v == "_enctext" and
-                      ("_enctext is not None and len(_enctext) > 0", True) in gs
-                      or {("_enctext is not None", True),
-                          ("len(_enctext) > 0", True)} <= gs, "R6",
+                      Q("_enctext is not None and len(_enctext) > 0", True) in gs
+                      or {Q("_enctext is not None", True),
+                          Q("len(_enctext) > 0", True)} <= gs, "R6",
                       fi.qual + "::" + norm_text(r.ast) + "@" +
                       str(len([x for x in gs])), "a decrypted text is returned "
                       "only when non-empty", "returns %s under %s" %
